@@ -732,6 +732,8 @@ impl AssetExpr {
         match &self.policy {
             Expression::None => None,
             Expression::Bytes(x) => Some(x.as_slice()),
+            // a declared policy used as `AnyAsset(Policy, ..)` is lowered to its hash
+            Expression::Hash(x) => Some(x.as_slice()),
             _ => None,
         }
     }
